@@ -204,7 +204,9 @@ func (s *JS) Dialect(comps *[]dialect.Prop) *dialect.Schema {
 type jgen struct {
 	// refAllPrims: every primitive property/item (that is not wrapped in nullable) is a component used by $ref
 	refAllPrims bool
-	cycle       int
+	// aliasAllEmbeds: every allOf member given by $ref refers to an alias component (one or two steps from the object)
+	aliasAllEmbeds bool
+	cycle          int
 	noNullAny   bool
 	rng       *rand.Rand
 	next      int
@@ -317,6 +319,9 @@ func (g *jgen) object(depth int, allowEmbed bool) *JS {
 		for i := 0; i < parts; i++ {
 			if g.rng.Intn(2) == 0 {
 				e := &JS{Kind: "obj", Ref: g.name(), Alias: g.alias()}
+				if g.aliasAllEmbeds {
+					e.Alias = 1 + g.rng.Intn(2)
+				}
 				e.Members = g.fields(depth, g.rng.Intn(3), used)
 				if g.rng.Intn(3) == 0 {
 					for j := range e.Members {
